@@ -133,7 +133,7 @@ CHECKS = {
              'kinds, renderings evaluated before and between edits) db.sql and db.dbml of the real objects must equal the model '
              'rendering of the content read off the live objects, and (model-free oracle) every database and element rendering must '
              'equal that of a database freshly built with the final content.',
-        note='no theorem is specific to C10 (in the value model it is definitional): freedom from caches is a property of the implementation, reached only through the correspondence and the fresh-build oracle',
+        note='the first sentence of C10 is definitional in the value model (a database IS its current content): freedom from caches is a property of the implementation, reached only through the correspondence and the fresh-build oracle; the second sentence (no stale name) is proved in the model from the reader theorems of C03/C04 (C10.lean: fk_shows_renamed_target / _source / _column, table_shows_new_name - after an in-place rename the DDL, read back, shows the new name)',
         technique='Lean renderer model + differential correspondence after edit histories + fresh-build oracle'),
     'C11': dict(
         level='other',
